@@ -6,10 +6,10 @@ PROPERTY = 'C02'
 TRUSTED = list(lalrmodel.TRUSTED)
 ASSUMPTIONS = ["that LALR_Analyzer builds the LALR(1) table of the grammar (compute_lr0_states, reads/includes/lookback, digraph, compute_lalr1_states) is NOT proved: bounded stand-in only",
                "WF(table) - goto defined, no terminal shift into the end state, no reduce cycle - is assumed by the driver contract and observed only on the enumerated family"]
-BOUNDED = [dict(name='standin.lalr-table', function='lark.parsers.lalr_analysis:LALR_Analyzer.compute_lalr (whole table construction), grammar_analysis.calculate_sets',
+BOUNDED = [dict(name='standin.lalr-table', function='lark.parsers.lalr_analysis:LALR_Analyzer.compute_lalr (whole table construction), digraph/traverse (closure operator), grammar_analysis.calculate_sets',
                 code=native_file('bounded/c02_lalr.py'),
-                bound={'quick': '200 random grammars (3 non-terminals, 2 terminals, rhs <= 3, nullable/recursive, rule priorities), the reduced ones compared with an independent canonical-LR(1)-merged reference on every terminal string of length <= 4: construction outcome, language, offending-token index, accepts() after every prefix, no foreign exception, no hang',
-                       'thorough': '1200 grammars, strings of length <= 5'},
+                bound={'quick': '200 random grammars (3 non-terminals, 2 terminals, rhs <= 3, nullable/recursive, rule priorities), the reduced ones compared with an independent canonical-LR(1)-merged reference on every terminal string of length <= 4: construction outcome, language, offending-token index, accepts() after every prefix, no foreign exception, no hang; 41 hand-made shapes (conflicts of both kinds, nullable unit chains of length 3 in 5 definition orders, mutually right-recursive nullable rules); digraph(X, R, G) against reachability for EVERY relation on <= 3 nodes and 6000 sampled relations on 4 nodes, successor lists in both orders',
+                       'thorough': '1200 grammars, strings of length <= 5; digraph exhaustive on every relation on <= 4 nodes (65 536 x 2 orders)'},
                 note='bounded stand-in for the table construction: never counted as proved; sampling seeded by VERIF_SEED')]
 
 
